@@ -104,16 +104,6 @@ APartialVerify(i, j, sch, ms, mv) ==
   /\ phase' = "judged" /\ UNCHANGED deal
 
 \* ---- beyond the exhaustive grid: (t,n) up to 255, expectation from the ideal layer alone ----
-Shapes == {"first_t", "last_t", "first_t_minus_1", "last_t_minus_1", "first_t_plus_1", "all_n", "evens", "two"}
-ShapeIds(sh, t, n) ==
-  CASE sh = "first_t"         -> [i \in 1..t |-> i]
-    [] sh = "last_t"          -> [i \in 1..t |-> n - t + i]
-    [] sh = "first_t_minus_1" -> [i \in 1..(t - 1) |-> i]
-    [] sh = "last_t_minus_1"  -> [i \in 1..(t - 1) |-> n - t + 1 + i]
-    [] sh = "first_t_plus_1"  -> [i \in 1..(IF t + 1 <= n THEN t + 1 ELSE t) |-> i]
-    [] sh = "all_n"           -> [i \in 1..n |-> n + 1 - i]
-    [] sh = "evens"           -> [i \in 1..(n \div 2) |-> 2 * i]
-    [] sh = "two"             -> <<n, 1>>
 ASplitBig(k, t, n) ==
   /\ phase = "idle"
   /\ last' = [act |-> "Split", k |-> k, t |-> t, n |-> n, expect |-> ResOf(SplitRes(t, n))]
